@@ -1,11 +1,16 @@
 (* C17 — malformed or truncated input is rejected or isolated, never mis-decoded.
    All statements are about the shared decoder model Model/Decode.v ([parse] = Cls().parse(bs) =
-   Cls.FromString(bs), [parse_into] = m.parse(bs) on an existing message) for EVERY byte string. *)
-From BP Require Import Base.Prelude Model.Types Model.Varint Model.Object Model.Encode Model.Decode.
-From BP Require Import Model.WellFormed Model.C17Typed Model.C17Wire Spec.Varint.
-From BP Require Import Proofs.C17TotalP.
+   Cls.FromString(bs), [parse_into] = m.parse(bs) on an existing message, [load_delimited]) for
+   EVERY byte string and every well-formed schema.  "Complete record" is the independent
+   specification Model/C17Wire.v ([wpayload] / [wrecs] / [wrec]: tag, payload by wire type,
+   groups nested, any legal varint padding). *)
+From BP Require Import Base.Prelude Model.Types Model.Varint Model.Float Model.Object Model.Encode Model.Decode.
+From BP Require Import Model.WellFormed Model.C17Typed Model.C17Wire Model.C17Step Spec.Varint.
+From BP Require Import Proofs.C17FieldP Proofs.C17TotalP Proofs.C17FloatP Proofs.C17MainP.
 
-(* termination: the fuel [parse] supplies (length of the input + 1) is never exhausted *)
+(* ---- termination: the fuel parse supplies (length of the input + 1) is never exhausted:
+        every recursive call (nested message, map entry, Timestamp / Duration / wrapper, nested
+        group, packed run) is on a strictly shorter byte list.  No hypothesis at all. ---- *)
 Theorem C17_total : forall sc c bs, parse sc c bs <> Err EFuel.
 Proof. exact parse_total. Qed.
 Print Assumptions C17_total.
@@ -17,3 +22,220 @@ Print Assumptions C17_total_into.
 Theorem C17_total_delimited : forall sc c s, load_delimited sc c s <> Err EFuel.
 Proof. exact load_delimited_total. Qed.
 Print Assumptions C17_total_delimited.
+
+(* fuel sufficiency / monotonicity of _load_field (groups nested to any depth) *)
+Theorem C17_load_field_fuel : forall fuel s nw raw, (length s < fuel)%nat -> load_field fuel s nw raw <> Err EFuel.
+Proof. exact load_field_fuel_ok. Qed.
+Print Assumptions C17_load_field_fuel.
+
+Theorem C17_load_field_fuel_mono : forall fuel s nw raw x,
+  load_field fuel s nw raw = Ok x -> forall fuel2, (fuel <= fuel2)%nat -> load_field fuel2 s nw raw = Ok x.
+Proof. exact load_field_fuel_mono. Qed.
+Print Assumptions C17_load_field_fuel_mono.
+
+(* ---- whatever parse returns is well typed, inside the decoder's ranges, of the requested
+        class, and can be encoded again ---- *)
+Theorem C17_welltyped : forall sc c bs m,
+  wf_schema sc = true -> has_builtins sc -> entries_agree sc = true ->
+  parse sc c bs = Ok m ->
+  well_typed sc m = true /\ decoded_range sc m = true /\ ocls m = c /\
+  exists bs', enc_obj sc m = Ok bs'.
+Proof. exact welltyped. Qed.
+Print Assumptions C17_welltyped.
+
+(* the same for m.parse(bs) on an existing well-typed message *)
+Theorem C17_welltyped_into : forall sc o bs m,
+  wf_schema sc = true -> has_builtins sc -> entries_agree sc = true ->
+  well_typed sc o = true -> decoded_range sc o = true ->
+  parse_into sc o bs = Ok m ->
+  well_typed sc m = true /\ decoded_range sc m = true /\ ocls m = ocls o /\
+  exists bs', enc_obj sc m = Ok bs'.
+Proof. exact welltyped_into. Qed.
+Print Assumptions C17_welltyped_into.
+
+(* the exact invariant behind "can be encoded again": typed + decoder ranges => bytes() succeeds *)
+Theorem C17_reencodable : forall sc m,
+  wf_schema sc = true -> decoded_range sc m = true -> exists bs, enc_obj sc m = Ok bs.
+Proof. exact reencodable. Qed.
+Print Assumptions C17_reencodable.
+
+(* ... of which the float32 part is: pack("<f", unpack("<f", w)) never overflows, all 2^32 patterns *)
+Theorem C17_float32_repack : forall w, 0 <= w < 2 ^ 32 -> f32_reencodable w = true.
+Proof. exact f32_reencodable_all. Qed.
+Print Assumptions C17_float32_repack.
+
+(* ---- a record cut in the middle (inside the tag, a varint, a fixed or length-delimited payload,
+        a group, at any depth of group nesting) is rejected, whatever complete records precede it ---- *)
+Theorem C17_prefix : forall sc c pre nw r k,
+  wrecs pre -> wrec nw r -> (0 < k < length r)%nat ->
+  exists e, parse sc c (pre ++ firstn k r) = Err e.
+Proof. exact prefix_rejected. Qed.
+Print Assumptions C17_prefix.
+
+Theorem C17_prefix_into : forall sc o pre nw r k,
+  wrecs pre -> wrec nw r -> (0 < k < length r)%nat ->
+  exists e, parse_into sc o (pre ++ firstn k r) = Err e.
+Proof. exact prefix_rejected_into. Qed.
+Print Assumptions C17_prefix_into.
+
+(* the payload level, used for nested cuts: _load_field rejects every proper prefix of a complete payload *)
+Theorem C17_payload_cut : forall nw pl x y fuel raw,
+  wpayload nw pl -> pl = x ++ y -> y <> [] -> exists e, load_field fuel x nw raw = Err e.
+Proof. exact load_field_cut. Qed.
+Print Assumptions C17_payload_cut.
+
+(* ---- field number 0, wire types 6 / 7, an end-group tag outside a group ---- *)
+Theorem C17_bad_tag : forall sc c pre nw tag rest,
+  wrecs pre -> VarintRep nw tag ->
+  (tag_num nw = 0 \/ tag_wt nw = 4 \/ tag_wt nw = 6 \/ tag_wt nw = 7) ->
+  exists e, parse sc c (pre ++ tag ++ rest) = Err e.
+Proof. exact bad_tag_rejected. Qed.
+Print Assumptions C17_bad_tag.
+
+(* ... and an end-group tag that closes a group of another field number *)
+Theorem C17_bad_end_group : forall sc c pre nw tag enw etag rest,
+  wrecs pre -> VarintRep nw tag -> tag_num nw <> 0 -> tag_wt nw = 3 ->
+  VarintRep enw etag -> tag_wt enw = 4 -> tag_num enw <> tag_num nw ->
+  exists e, parse sc c (pre ++ tag ++ etag ++ rest) = Err e.
+Proof. exact group_end_mismatch_rejected. Qed.
+Print Assumptions C17_bad_end_group.
+
+(* ---- a complete record of a KNOWN field number whose wire type does not fit the declared type
+        goes, byte for byte, to _unknown_fields; nothing else changes (raw attributes, group
+        selection), for ANY state of the message it is parsed into ---- *)
+Theorem C17_mismatch : forall sc o nw r i f,
+  wrec nw r -> field_by_number (get_class sc (ocls o)) (tag_num nw) = Some (i, f) ->
+  wire_type_fits f (tag_wt nw) = false ->
+  parse_into sc o r = Ok (add_unknown (mark_on_wire o) r).
+Proof. exact mismatch_isolated. Qed.
+Print Assumptions C17_mismatch.
+
+(* ---- a group record (everything inside it, nested groups included), whatever its field number ---- *)
+Theorem C17_group : forall sc o nw r,
+  wrec nw r -> tag_wt nw = 3 -> parse_into sc o r = Ok (add_unknown (mark_on_wire o) r).
+Proof. exact group_isolated. Qed.
+Print Assumptions C17_group.
+
+(* ---- the reader against the record specification ---- *)
+(* whatever _load_field accepts is a complete payload, consumed exactly, and raw = the bytes read *)
+Theorem C17_reader_sound : forall fuel s nw raw p s',
+  load_field fuel s nw raw = Ok (p, s') -> field_ok nw raw s p s'.
+Proof. exact load_field_sound. Qed.
+Print Assumptions C17_reader_sound.
+
+(* every complete payload is read, whatever follows it *)
+Theorem C17_reader_complete : forall nw pl fuel rest raw,
+  wpayload nw pl -> (length (pl ++ rest) < fuel)%nat ->
+  exists p, load_field fuel (pl ++ rest) nw raw = Ok (p, rest) /\ field_ok nw raw (pl ++ rest) p rest.
+Proof. exact load_field_complete. Qed.
+Print Assumptions C17_reader_complete.
+
+(* the specification is a prefix-free code: no complete payload is a proper prefix of another *)
+Theorem C17_spec_prefix_free : forall nw a b x y, wpayload nw a -> wpayload nw b -> a ++ x = b ++ y -> a = b.
+Proof. intros nw a b x y Wa Wb. exact (proj1 wire_prefix_free nw a Wa b x y Wb). Qed.
+Print Assumptions C17_spec_prefix_free.
+
+(* ================= non-vacuity ================= *)
+(* class 11: x int32 = 1; s string = 2; rec (class 11) = 3; o optional int32 = 4; f float = 5;
+             r repeated sint64 = 6; m map<string, class 11> = 7 (entry class 12); u1/u2 oneof {uint64 = 8, bytes = 9};
+             w wrapper(Int32Value) = 10; t Timestamp = 11 *)
+Definition ex_sc : schema :=
+  mkS (builtin_classes ++
+       [mkC [mkF [x78] 1 TInt32 None None None false (HPlain PyInt) 0;
+             mkF [x73] 2 TString None None None false (HPlain PyStr) 0;
+             mkF [x72] 3 TMessage None None None false (HPlain (PyMsg 11)) 0;
+             mkF [x6f] 4 TInt32 None None None true (HOptional PyInt) 0;
+             mkF [x66] 5 TFloat None None None false (HPlain PyFloat) 0;
+             mkF [x71] 6 TSInt64 None None None false (HList PyInt) 0;
+             mkF [x6d] 7 TMap (Some (TString, TMessage)) None None false (HDict PyStr (PyMsg 11)) 12;
+             mkF [x75] 8 TUInt64 None (Some 0%nat) None false (HPlain PyInt) 0;
+             mkF [x76] 9 TBytes None (Some 0%nat) None false (HPlain PyBytes) 0;
+             mkF [x77] 10 TMessage None None (Some TInt32) false (HOptional PyInt) 0;
+             mkF [x74] 11 TMessage None None None false (HPlain PyDatetime) 0] 1;
+        mkC [mkF [x6b] 1 TString None None None false (HPlain PyStr) 0;
+             mkF [x76] 2 TMessage None None None false (HPlain (PyMsg 11)) 0] 0]) [].
+
+Example C17_schema_side_conditions : wf_schema ex_sc = true /\ entries_agree ex_sc = true /\ has_builtins ex_sc.
+Proof. split; [vm_compute; reflexivity|]. split; [vm_compute; reflexivity|]. eexists. reflexivity. Qed.
+
+(* x = -1 (ten bytes), s = "é", nested rec {x = 5}, float 1.5, packed sint64 [-1, 150], map {"k": {x=1}},
+   oneof member u = 7, wrapper 3, Timestamp(1 s), a group with unknown number 15 holding a field numbered 1,
+   a varint on the string field's number (mismatch) *)
+Definition ex_bytes : list byte :=
+  [x08; xff; xff; xff; xff; xff; xff; xff; xff; xff; x01;
+   x12; x02; xc3; xa9;
+   x1a; x02; x08; x05;
+   x2d; x00; x00; xc0; x3f;
+   x32; x03; x01; xac; x02;
+   x3a; x07; x0a; x01; x6b; x12; x02; x08; x01;
+   x40; x07;
+   x52; x02; x08; x03;
+   x5a; x02; x08; x01;
+   x7b; x08; x63; x7c;
+   x10; x2a].
+
+Example C17_welltyped_nonvacuous :
+  exists m, parse ex_sc 11 ex_bytes = Ok m /\ well_typed ex_sc m = true /\ decoded_range ex_sc m = true /\
+            ounk m = [x7b; x08; x63; x7c; x10; x2a] /\
+            nth 0 (oraw m) PNone = PInt (-1) /\ nth 1 (oraw m) PNone = PPlaceholder /\
+            enc_obj ex_sc m <> Err EOther.
+Proof. eexists. vm_compute. repeat split; discriminate. Qed.
+
+(* an ill-typed object is NOT well_typed (the predicate is not trivially true) *)
+Example C17_welltyped_discriminates :
+  well_typed ex_sc (Obj 11 [PList [PInt 1]; PInt 7; PPlaceholder; PNone; PPlaceholder; PPlaceholder; PPlaceholder;
+                            PPlaceholder; PPlaceholder; PPlaceholder; PPlaceholder] true [] [None]) = false
+  /\ decoded_range ex_sc (Obj 11 [PInt (2 ^ 31); PPlaceholder; PPlaceholder; PNone; PPlaceholder; PPlaceholder; PPlaceholder;
+                                  PPlaceholder; PPlaceholder; PPlaceholder; PPlaceholder] true [] [None]) = false.
+Proof. vm_compute. split; reflexivity. Qed.
+
+Ltac vrep := split; [cbn; lia | split; [reflexivity | cbn; lia]].
+
+(* the record  08 96 01  (field 1, varint 150) and every cut of it *)
+Example C17_wrec_varint : wrec 8 [x08; x96; x01].
+Proof. exists [x08], [x96; x01]. split; [vrep|]. split; [|reflexivity]. apply (PVarint 8 150); try (cbn; lia). vrep. Qed.
+
+Example C17_prefix_nonvacuous :
+  parse ex_sc 11 ([x10; x2a] ++ firstn 1 [x08; x96; x01]) = Err EEof /\
+  parse ex_sc 11 ([x10; x2a] ++ firstn 2 [x08; x96; x01]) = Err EEof /\
+  parse ex_sc 11 [x12; x05; x41] = Err EEof /\
+  parse ex_sc 11 [x1a; x03; x12; x05; x41] = Err EEof.
+Proof. vm_compute. repeat split. Qed.
+
+Example C17_bad_tag_nonvacuous :
+  parse ex_sc 11 [x00; x01] = Err EValue /\ parse ex_sc 11 [x0e; x01] = Err EValue /\
+  parse ex_sc 11 [x0f] = Err EValue /\ parse ex_sc 11 [x0c] = Err EValue /\
+  parse ex_sc 11 [x0b; x14] = Err EValue.
+Proof. vm_compute. repeat split. Qed.
+
+(* a group carrying the KNOWN field number 1, with a field numbered 1 inside and a nested group: skipped whole *)
+Example C17_wrec_group : wrec 11 [x0b; x08; x09; x13; x14; x0c].
+Proof.
+  exists [x0b], [x08; x09; x13; x14; x0c]. split; [vrep|]. split; [|reflexivity].
+  apply (PGroup 11 [x08; x09; x13; x14] 12 [x0c]); try (cbn; lia); [|vrep].
+  apply (WCons 8 [x08] [x09] [x13; x14]); [vrep | apply (PVarint 8 9); try (cbn; lia); vrep|].
+  apply (WCons 19 [x13] [x14] []); [vrep | | constructor].
+  apply (PGroup 19 [] 20 [x14]); try (cbn; lia); [constructor | vrep].
+Qed.
+
+Example C17_group_nonvacuous :
+  parse_into ex_sc (Obj 11 [PInt 5; PPlaceholder; PPlaceholder; PNone; PPlaceholder; PPlaceholder; PPlaceholder;
+                            PPlaceholder; PPlaceholder; PPlaceholder; PPlaceholder] true [x01] [None])
+             [x0b; x08; x09; x13; x14; x0c]
+  = Ok (Obj 11 [PInt 5; PPlaceholder; PPlaceholder; PNone; PPlaceholder; PPlaceholder; PPlaceholder;
+                PPlaceholder; PPlaceholder; PPlaceholder; PPlaceholder] true [x01; x0b; x08; x09; x13; x14; x0c] [None]).
+Proof. vm_compute. reflexivity. Qed.
+
+(* a length-delimited record on the int32 field 1 (the former "int field becomes a list") *)
+Example C17_mismatch_nonvacuous :
+  field_by_number (get_class ex_sc 11) (tag_num 10) <> None /\
+  parse ex_sc 11 [x0a; x02; x01; x02] =
+  Ok (Obj 11 [PPlaceholder; PPlaceholder; PPlaceholder; PNone; PPlaceholder; PPlaceholder; PPlaceholder;
+              PPlaceholder; PPlaceholder; PPlaceholder; PPlaceholder] true [x0a; x02; x01; x02] [None]).
+Proof. vm_compute. split; [discriminate | reflexivity]. Qed.
+
+(* the decoder's range for uint64 is tight: a ten-byte varint carries 70 bits and is not masked *)
+Example C17_uint64_wide_witness :
+  exists m, parse ex_sc 11 [x40; xff; xff; xff; xff; xff; xff; xff; xff; xff; x7f] = Ok m /\
+            nth 7 (oraw m) PNone = PInt (2 ^ 70 - 1).
+Proof. eexists. vm_compute. split; reflexivity. Qed.
